@@ -99,6 +99,7 @@ func sameKVs(got, want []kv) (bool, string) {
 // scanOnce drives one start string through the three entry points.
 // stopAt: callback returns false on its stopAt-th invocation (1-based); 0 = never.
 func (e *scanEnv) scanOnce(start string, incl, withValue bool, stopAt int, end string, endIncl bool, useEnd bool) bool {
+	e.ctx.Beat()
 	st := e.st
 	args := map[string]interface{}{"start_hex": hexq(start), "include_start": incl, "with_value": withValue, "stop_at": stopAt}
 	limit := e.window
@@ -251,6 +252,99 @@ func (e *scanEnv) scanOnce(start string, incl, withValue bool, stopAt int, end s
 		if extraBad != "" {
 			args["why"] = extraBad
 			e.viol("newiter-after-exhaustion", args)
+			return false
+		}
+	}
+	return true
+}
+
+// interleaved: several scans of one trie alive at once in ONE goroutine: two
+// iterators stepped alternately, a finished iterator polled again, and a scan
+// started from inside another scan's callback. Each must deliver its own
+// sequence (a scan API that keeps state in the trie would pass every
+// one-at-a-time check).
+func (e *scanEnv) interleaved(s1, s2 string) bool {
+	e.ctx.Beat()
+	st := e.st
+	lim := 60
+	w1 := e.expect(s1, true, false, "", false, true, lim)
+	w2 := e.expect(s2, false, false, "", false, false, lim)
+	args := map[string]interface{}{"start1_hex": hexq(s1), "start2_hex": hexq(s2)}
+	var g1, g2, g3 []kv
+	var nested [][]kv
+	pv, stack := try(func() {
+		it1 := st.NewIter(s1, true, true)
+		it2 := st.NewIter(s2, false, false)
+		d1, d2 := false, false
+		for step := 0; step < lim+3 && !(d1 && d2); step++ {
+			if !d1 || step%5 == 0 { // a finished iterator is polled again now and then
+				k, v := it1()
+				if k == nil {
+					d1 = true
+				} else if !d1 && len(g1) < lim {
+					g1 = append(g1, kv{append([]byte{}, k...), append([]byte(nil), v...)})
+				} else if d1 {
+					g1 = append(g1, kv{k: []byte("YIELD-AFTER-END")})
+				}
+			}
+			if !d2 || step%7 == 0 {
+				k, _ := it2()
+				if k == nil {
+					d2 = true
+				} else if !d2 && len(g2) < lim {
+					g2 = append(g2, kv{k: append([]byte{}, k...)})
+				} else if d2 {
+					g2 = append(g2, kv{k: []byte("YIELD-AFTER-END")})
+				}
+			}
+		}
+		// a scan started inside another scan's callback
+		n := 0
+		st.ScanFrom(s1, true, true, func(k, v []byte) bool {
+			g3 = append(g3, kv{append([]byte{}, k...), append([]byte(nil), v...)})
+			if n < 3 {
+				var inner []kv
+				m := 0
+				st.ScanFrom(s2, false, false, func(k2, v2 []byte) bool {
+					inner = append(inner, kv{k: append([]byte{}, k2...)})
+					m++
+					return m < 8
+				})
+				nested = append(nested, inner)
+			}
+			n++
+			return n < lim
+		})
+	})
+	e.ctx.Count("interleaved_scan_sets", 1)
+	if pv != nil {
+		args["panic"], args["stack"] = fmt.Sprint(pv), stack
+		e.viol("interleaved-panic", args)
+		return false
+	}
+	fixNil := func(s []kv) []kv {
+		for i := range s {
+			if len(s[i].v) == 0 {
+				s[i].v = nil
+			}
+		}
+		return s
+	}
+	for name, pair := range map[string][2][]kv{"iterator-1": {fixNil(g1), fixNil(w1)}, "iterator-2": {g2, w2}, "outer-scan": {fixNil(g3), fixNil(w1)}} {
+		if ok, why := sameKVs(pair[0], pair[1]); !ok {
+			args["which"], args["why"], args["expected"], args["observed"] = name, why, showKVs(pair[1], 10), showKVs(pair[0], 10)
+			e.viol("interleaved-scans-interfere", args)
+			return false
+		}
+	}
+	w2short := w2
+	if len(w2short) > 8 {
+		w2short = w2short[:8]
+	}
+	for _, inner := range nested {
+		if ok, why := sameKVs(inner, w2short); !ok {
+			args["which"], args["why"], args["expected"], args["observed"] = "nested-scan", why, showKVs(w2short, 10), showKVs(inner, 10)
+			e.viol("interleaved-scans-interfere", args)
 			return false
 		}
 	}
@@ -466,6 +560,13 @@ func runScanCase(ctx *Ctx, lc *LCase, caseIdx int) {
 					}
 				}
 			}
+			if ok && len(starts) >= 2 {
+				a, b := starts[(caseIdx+oi)%len(starts)], starts[(caseIdx*3+oi+1)%len(starts)]
+				ok = env.interleaved(a, b)
+				if ok && lc.Exh {
+					ok = env.interleaved("", a)
+				}
+			}
 			// one full-length scan (no window) from the beginning
 			if ok && !lc.Exh && len(m.RetKeys) > window {
 				env.window = 1 << 30
@@ -493,7 +594,7 @@ func init() {
 	p := scanProfile
 	def := &CheckDef{
 		ID: "C04", Level: "exploration",
-		Rule: "case = (key list, value list+encoder) x 16 option sets; on the option sets that store complete keys: fresh and loaded instances, start strings sampled from Q(K), both start inclusivities, with/without values, callback stop points (never/first/random), end bounds with both inclusivities, through ScanFrom, ScanFromTo and NewIter (+3 calls after exhaustion), compared with the model's retained suffix; on the others: every entry point must panic before yielding (empty tries may return nothing); non-trivial = at least 2 retained keys; distinct by hash of keys and encoded values",
+		Rule:     "case = (key list, value list+encoder) x 16 option sets; on the option sets that store complete keys: fresh and loaded instances, start strings sampled from Q(K), both start inclusivities, with/without values, callback stop points (never/first/random), end bounds with both inclusivities, through ScanFrom, ScanFromTo and NewIter (+3 calls after exhaustion), compared with the model's retained suffix; two iterators stepped alternately (finished ones polled again) and a scan started inside another scan's callback must each deliver their own sequence; on the others: every entry point must panic before yielding (empty tries may return nothing); non-trivial = at least 2 retained keys; distinct by hash of keys and encoded values",
 		NumCases: p.numCases,
 		Run: func(ctx *Ctx, idx int) {
 			lc, sp, subs := p.caseAt(ctx, idx)
@@ -530,7 +631,7 @@ func init() {
 		},
 		Gates: shapeGates("shape:with_257bit_nodes", "shape:with_257bit_below_root", "shape:with_17bit_nodes", "shape:with_short_nodes", "shape:with_straddling_short",
 			"shape:with_end_of_key_label", "shape:with_halfbyte_prefix", "shape:with_aligned_prefix", "shape:with_varlen_leaves", "shape:varlen_grow_and_shrink",
-			"refusal:panicked", "scans:full_length", "scans:cut_by_end_bound", "scans:empty_result", "iters:run_to_exhaustion", "instances:loaded", "valkind:str16", "valkind:none"),
+			"refusal:panicked", "scans:full_length", "scans:cut_by_end_bound", "scans:empty_result", "interleaved_scan_sets", "iters:run_to_exhaustion", "instances:loaded", "valkind:str16", "valkind:none"),
 		Assumptions: []string{
 			"the reference model (sorted retained list, lower bound) is correct",
 			"reference value encodings in harness/gen_vals.go are the documented layouts",
